@@ -400,7 +400,7 @@ pub fn prove_base(ctx: &mut Ctx, b: &Base, salt: u32, nforeign: usize, rng: &mut
                     }
                 }
             }
-            if !(dup && short == "err dup") {
+            if !(dup && short == "err dup") && !built.pq.is_empty() {
                 crate::ofail(ctx, 
                     &format!("prover-fails:{}:{}", short, shape_class(b)),
                     "multi_open does not produce a proof for a duplicate-free query set",
